@@ -97,7 +97,7 @@ def shift_before_use(prog, res, fname, file_suffix, rule, is_shift_expr, what):
 def r1(prog, res):
     n = threading(prog, res, "R1.offset_threading", FAMILY,
                   {"STEPfile": {"_fileIdIncr", "FileIdIncr"}}, entry_keys(prog), why="file id offset",
-                  exempt=HEADER_EXEMPT)
+                  exempt=HEADER_EXEMPT, no_constant_alternative=True)
     res.floor("R1.offset_threading", "call sites that accept the offset", n, 15)
 
 
